@@ -267,7 +267,7 @@ Proof. intros Hok H. exact (prun_inv x msf lbl cfg c h _ _ _ (PInv_init x msf lb
 Theorem c02_pipeline_tick_accepted x msf lbl cfg c P t tau other s' o :
   PInv x msf lbl cfg P ->
   Group.step cfg (p_g P) t
-    (ETick tau (filter (fun a => silenced x lbl (fst (p_sc P)) t a) (flush_ids (p_g P) t) ++ other)) = Some (s', o) ->
+    (ETick tau (filter (fun a => silenced x lbl (fst (p_sc P)) t a) (passed other (flush_ids (p_g P) t)) ++ other)) = Some (s', o) ->
   exists P', pstep cfg c x lbl P t (PTick tau other) = Some (P', o) /\ p_g P' = s'.
 Proof. exact (tick_accepted x msf lbl cfg c P t tau other s' o). Qed.
 
